@@ -108,7 +108,7 @@ def verify_registration_response(
     verified = False
 
     # FIDO-specific check
-    if bytes_to_base64url(credential.raw_id) != credential.id:
+    if bytes_to_base64url(byteslike_to_bytes(credential.raw_id)) != credential.id:
         raise InvalidRegistrationResponse("id and raw_id were not equivalent")
 
     # FIDO-specific check
